@@ -7,6 +7,7 @@
 package opsim
 
 import (
+	"regexp"
 	"context"
 	"encoding/json"
 	"fmt"
@@ -57,8 +58,9 @@ type Hook struct {
 	// rate limit settings (C18 placement); 0 = absent
 	IntervalMs int `json:"interval_ms,omitempty"`
 	Burst      int `json:"burst,omitempty"`
-	// Path (optional): path of the hook file relative to the hooks directory; its base name
-	// must start with the usual h<id> name. Default: h<id>.
+	// Path (optional): path of the hook file relative to the hooks directory; it must contain
+	// the usual h<id> name (the last h<3 digits> in it identifies the hook), and the paths of a
+	// configuration must be in lexical order when the hooks are in id order. Default: h<id>.
 	Path string `json:"path,omitempty"`
 }
 type Action struct {
@@ -149,6 +151,26 @@ func GroupName(n int) string {
 	return "g" + strconv.Itoa(n)
 }
 func CronName(c int) string { return fmt.Sprintf("*/%d * * * *", c) }
+
+var hookIdRe = regexp.MustCompile(`h(\d{3})`)
+
+// hookIdOf finds the hook number in a hook name (relative path of the hook file).
+func hookIdOf(name string) int {
+	ms := hookIdRe.FindAllStringSubmatch(name, -1)
+	if len(ms) == 0 {
+		return -1
+	}
+	n, _ := strconv.Atoi(ms[len(ms)-1][1])
+	return n
+}
+
+// HookFile is the hook's name in the operator: the path of its file relative to the hooks directory.
+func HookFile(h Hook) string {
+	if h.Path != "" {
+		return h.Path
+	}
+	return HookName(h.Id)
+}
 
 func parseNum(prefix, s string) int {
 	if !strings.HasPrefix(s, prefix) {
@@ -351,7 +373,7 @@ func (s *Server) loop() {
 			}
 			s.mu.Lock()
 			s.seq++
-			c := &Call{Hello: h, Hook: parseNum("h", name), conn: conn, Seq: s.seq}
+			c := &Call{Hello: h, Hook: hookIdOf(name), conn: conn, Seq: s.seq}
 			s.mu.Unlock()
 			s.Execs <- c
 		}()
@@ -532,7 +554,7 @@ func NewSim(in Input) (*Sim, error) {
 		return s, err
 	}
 	for _, h := range in.Cfg {
-		hk := op.VerifHookManager().GetHook(HookName(h.Id))
+		hk := op.VerifHookManager().GetHook(HookFile(h))
 		if hk == nil {
 			continue
 		}
@@ -582,7 +604,7 @@ func (s *Sim) queueNames() []string {
 func (s *Sim) taskObs(t task.Task) TaskObs {
 	o := TaskObs{Type: string(t.GetType()), Queue: queueNum(t.GetQueueName()), Fail: t.GetFailureCount()}
 	hm := task_metadata.HookMetadataAccessor(t)
-	o.Hook = parseNum("h", hm.HookName)
+	o.Hook = hookIdOf(hm.HookName)
 	switch string(hm.BindingType) {
 	case "onStartup":
 		o.BType = "BOnStartup"
@@ -778,7 +800,7 @@ func (s *Sim) observe(step *StepObs) {
 	}
 	// unlocked monitors
 	for _, h := range s.In.Cfg {
-		hk := s.Op.VerifHookManager().GetHook(HookName(h.Id))
+		hk := s.Op.VerifHookManager().GetHook(HookFile(h))
 		if hk == nil {
 			continue
 		}
